@@ -363,11 +363,56 @@ Corollary public_entries_sound : forall e, In e entries -> e_role e = Public ->
   ~ In OIn (e_ret e) /\ e_ret e <> [] /\ forall w, In w (e_writes e) -> benign (w_kind w).
 Proof. intros e Hin Hr. apply sig_ok_public_sound; [apply sig_ok_each; exact Hin | exact Hr]. Qed.
 
+(* ================================================================== generated operation rows (Gen/OpEntries.v) *)
+Theorem op_table_ok : forallb (fun wo => gen_ok (fst wo) (snd wo)) covered_ops = true.
+Proof. vm_compute. reflexivity. Qed.
+
+Theorem sig_tables_agree : forallb (fun wo => tables_agree (fst wo) (snd wo)) covered_ops = true.
+Proof. vm_compute. reflexivity. Qed.
+
+Theorem op_table_ok_each : forall w o, In (w, o) covered_ops -> gen_ok w o = true.
+Proof. intros w o H. exact (proj1 (forallb_forall _ _) op_table_ok (w, o) H). Qed.
+
+Lemma finter_self_eq a b : fsubset a b = true -> finter a b = a.
+Proof.
+  unfold fsubset, finter. intros H. induction a as [|f a IH]; [reflexivity|]. cbn in *.
+  apply andb_prop in H. destruct H as [H1 H2]. rewrite H1. f_equal. apply IH. exact H2.
+Qed.
+
+(* on the unchanged tree the signature used for the observations IS the generated one *)
+Theorem sig_tables_agree_each : forall w o, In (w, o) covered_ops ->
+  exists g, gen_sig w o = Some g /\ sig_agree g (sig_of w o) = true /\
+            s_rewrite (gsig_of w o) = s_rewrite g /\ s_write (gsig_of w o) = s_write g /\ s_share (gsig_of w o) = s_share g.
+Proof.
+  intros w o H. pose proof (proj1 (forallb_forall _ _) sig_tables_agree (w, o) H) as A. cbn [fst snd] in A.
+  unfold tables_agree in A. unfold gsig_of. destruct (gen_sig w o) as [g|]; [|discriminate].
+  exists g. split; [reflexivity|]. split; [exact A|].
+  unfold sig_agree, fset_eqb in A.
+  apply andb_prop in A. destruct A as [A C]. apply andb_prop in A. destruct A as [A B].
+  apply andb_prop in A. destruct A as [A _]. apply andb_prop in B. destruct B as [B _].
+  apply andb_prop in C. destruct C as [C _].
+  cbn [s_rewrite s_write s_share]. repeat split; apply finter_self_eq; assumption.
+Qed.
+
+(* what gen_ok means for one generated row of an operand of a covered operation *)
+Theorem gen_ok_operand_sound w o fn v p r : gen_ok w o = true -> In (fn, v, p, Operand) (op_rows w o) ->
+  find_row (fn, v, p, Operand) = Some r ->
+  (forall x, In x (o_writes r) -> benign (pw_kind x)) /\
+  (s_cat (sig_of w o) = Derive -> o_ret_is_param r = false).
+Proof.
+  unfold gen_ok. intros H Hin Hr. apply andb_prop in H. destruct H as [_ H].
+  rewrite forallb_forall in H. specialize (H _ Hin). rewrite Hr in H. cbn [is_operand] in H.
+  apply andb_prop in H. destruct H as [H1 H2]. split.
+  - intros x Hx. rewrite forallb_forall in H1. specialize (H1 _ Hx). unfold benign.
+    destruct (pw_kind x); try discriminate; tauto.
+  - intros Hc. rewrite Hc in H2. cbn in H2. destruct (o_ret_is_param r); [discriminate | reflexivity].
+Qed.
+
 (* observed effects inside a signature: the consequences used by the harness *)
 Lemma within_sig_sound o : within_sig o = true ->
   ob_value_changed o = false /\ ob_bystander o = false /\ ob_cross o = false /\
-  (forall f, In f (ob_share o) -> In f (s_share (sig_of (ob_world o) (ob_op o)))) /\
-  (forall f, In f (ob_arg_rw o) -> In f (s_rewrite (sig_of (ob_world o) (ob_op o)))).
+  (forall f, In f (ob_share o) -> In f (s_share (gsig_of (ob_world o) (ob_op o)))) /\
+  (forall f, In f (ob_arg_rw o) -> In f (s_rewrite (gsig_of (ob_world o) (ob_op o)))).
 Proof.
   unfold within_sig. intros H. repeat (apply andb_prop in H; destruct H as [H ?]).
   repeat split; try (apply negb_true_iff; assumption).
